@@ -528,8 +528,7 @@ def r_manymut(F, V):
                 for s in body.nsucc[b]:
                     if s in blocks or not body.can_reach_return(s):
                         continue
-                    S = branch_sources(body, b)
-                    if not any(c.endswith("::next") for c in S.calls):
+                    if not _is_exhaustion_branch(body, b):
                         problems.append("the checking loop can be left early (not through exhaustion of the pointer array): later duplicates are not compared")
             # the conversion is dominated by the loop header (i.e. happens after the loop)
             for c in conv:
@@ -574,7 +573,7 @@ def r_manymut(F, V):
                 finds += 1
                 # must not be control dependent on a comparison of hashes
                 for (bb, s, S) in controlling_sources(b, i):
-                    if "Eq" in S.binops or "Ne" in S.binops or any(x.endswith("::eq") for x in S.calls):
+                    if not _is_exhaustion_branch(b, bb):
                         reuse = True
     if finds == 0 or reuse:
         R.violation(PTRS + "|independent-find", pb, "get_many_mut_pointers does not perform one unconditional find per requested key (a result is reused or skipped depending on a comparison): a key can be answered with another key's entry")
@@ -582,6 +581,24 @@ def r_manymut(F, V):
         R.inst(PTRS + "|independent-find", "one unconditional find per requested key", "ok", True, where(pb))
     R.floor("safe bodies obtaining the pointer array", n, {"posctl": 0}.get(F.cfg, 1))
     return R
+
+
+def _is_exhaustion_branch(body, b):
+    """the switch of block b tests the discriminant of an `Iterator::next` result directly (loop exhaustion)."""
+    t = body.term(b)
+    if t["k"] != "switch" or t["discr"]["k"] not in ("copy", "move"):
+        return False
+    d = body.single_def(t["discr"]["p"]["l"])
+    if not d or d[0] != "stmt" or d[3]["rv"]["k"] != "discriminant":
+        return False
+    pl = d[3]["rv"]["p"]
+    if pl.get("proj"):
+        return False
+    dd = body.single_def(pl["l"])
+    if not dd or dd[0] != "call":
+        return False
+    f = dd[3]["f"]
+    return f["k"] == "fn" and (f.get("method") == "next" or (callee_path(dd[3]) or "").endswith("::next"))
 
 
 def _derives_from(body, operand, local, depth=0):
